@@ -192,6 +192,8 @@ class Ctx:
         self.tlc_runs.append({"name": name, "module": module, "generated": r.generated, "distinct": r.distinct,
                               "depth": r.depth, "wall_s": round(r.wall, 2), "completed": r.completed,
                               "ok_printed": len(r.ok), "scenarios": len(r.scenarios)})
+        if simulate and p.returncode == 0 and not r.violated:
+            r.completed = True
         if p.returncode == 124:
             raise Inconclusive("TLC timed out on %s after %ds" % (name, timeout))
         if not r.completed and not (tolerate_violation and r.violated):
